@@ -1,5 +1,6 @@
 import CasbinVerif.Spec.Rbac
 import CasbinVerif.Proofs.C16
+import CasbinVerif.Proofs.C16Enforce
 /-
   C16 — RBAC introspection APIs agree with enforcement.
 
@@ -16,45 +17,78 @@ open Casbin.Rbac
     model gives it (one round per link plus one) is never used up -/
 theorem implicitRoles_terminates (rm : RM) (u : String) (ds : List String) :
     ∃ l, implicitRoles rm u ds = some l := by
-  sorry
+  obtain ⟨l, h, _⟩ := implicitRoles_spec rm u ds
+  exact ⟨l, h⟩
 
 theorem implicitUsersForRole_terminates (rm : RM) (r : String) (ds : List String) :
     ∃ l, implicitUsersForRole rm r ds = some l := by
-  sorry
+  obtain ⟨l, h, _⟩ := implicitUsersForRole_spec rm r ds
+  exact ⟨l, h⟩
 
 /-- `GetImplicitRolesForUser` lists exactly the other names reachable from the user, each once -/
 theorem implicitRoles_exact (rm : RM) (u : String) (ds : List String) (l : List String)
     (h : implicitRoles rm u ds = some l) (r : String) :
     r ∈ l ↔ r ≠ u ∧ Reach rm.links (rm.dom ds) u r := by
-  sorry
+  obtain ⟨l', h1, _, h3⟩ := implicitRoles_spec rm u ds
+  rw [h] at h1
+  cases h1
+  exact h3 r
 
 theorem implicitRoles_nodup (rm : RM) (u : String) (ds : List String) (l : List String)
     (h : implicitRoles rm u ds = some l) : l.Nodup := by
-  sorry
+  obtain ⟨l', h1, h2, _⟩ := implicitRoles_spec rm u ds
+  rw [h] at h1
+  cases h1
+  exact h2
 
 /-- every other role for which `g()` holds is listed (no depth hypothesis) -/
 theorem hasLink_listed (rm : RM) (u : String) (ds : List String) (l : List String)
     (h : implicitRoles rm u ds = some l) (r : String) (hne : r ≠ u) (hl : rm.hasLink u r ds = true) :
     r ∈ l := by
-  sorry
+  obtain ⟨l', h1, _, h3⟩ := implicitRoles_spec rm u ds
+  rw [h] at h1
+  cases h1
+  exact (h3 r).2 ⟨hne, _, (hasLink_iff_reach' rm u r ds).1 hl⟩
 
 /-- **implicit roles**: within the depth limit the listing is exactly the other roles for which `g()` holds -/
 theorem implicitRoles_iff_hasLink (rm : RM) (u : String) (ds : List String) (l : List String)
     (h : implicitRoles rm u ds = some l) (hd : DepthOk rm u ds) (r : String) :
     r ∈ l ↔ r ≠ u ∧ rm.hasLink u r ds = true := by
-  sorry
+  obtain ⟨l', h1, _, h3⟩ := implicitRoles_spec rm u ds
+  rw [h] at h1
+  cases h1
+  rw [h3 r, hasLink_iff_reach']
+  constructor
+  · rintro ⟨hne, n, hn⟩
+    exact ⟨hne, hd r n hn⟩
+  · rintro ⟨hne, hn⟩
+    exact ⟨hne, _, hn⟩
 
 /-- the depth hypothesis is decidable from the listing itself: it holds iff `g()` confirms every listed role -/
 theorem depthOk_iff (rm : RM) (u : String) (ds : List String) (l : List String)
     (h : implicitRoles rm u ds = some l) :
     DepthOk rm u ds ↔ ∀ r ∈ l, rm.hasLink u r ds = true := by
-  sorry
+  obtain ⟨l', h1, _, h3⟩ := implicitRoles_spec rm u ds
+  rw [h] at h1
+  cases h1
+  constructor
+  · intro hd r hr
+    obtain ⟨_, n, hn⟩ := (h3 r).1 hr
+    exact (hasLink_iff_reach' rm u r ds).2 (hd r n hn)
+  · intro hall r n hn
+    by_cases hru : r = u
+    · subst hru
+      exact .refl _ _
+    · exact (hasLink_iff_reach' rm u r ds).1 (hall r ((h3 r).2 ⟨hru, n, hn⟩))
 
 /-- `GetImplicitUsersForRole` lists exactly the other names from which the role is reachable -/
 theorem implicitUsersForRole_exact (rm : RM) (r : String) (ds : List String) (l : List String)
     (h : implicitUsersForRole rm r ds = some l) (x : String) :
     x ∈ l ↔ x ≠ r ∧ Reach rm.links (rm.dom ds) x r := by
-  sorry
+  obtain ⟨l', h1, _, h3⟩ := implicitUsersForRole_spec rm r ds
+  rw [h] at h1
+  cases h1
+  exact h3 x
 
 /-- **implicit permissions** (stock RBAC model): a request is allowed iff some permission listed by
     `GetImplicitPermissionsForUser(u)` grants it.  `hD24`: finding D24 (on an empty policy the
@@ -69,7 +103,27 @@ theorem enforce_iff_listed (policy : List Rule) (rm : RM) (links : String → Li
       (enforce rbacModel (fun pt => if pt = "p" then policy else []) links fn evalTab {} none
           [.str u, .str o, .str a]).map (·.1)
         = some (perms.any (fun perm => perm.tail == [o, a])) := by
-  sorry
+  obtain ⟨roles, hroles, _, _⟩ := implicitRoles_spec rm u []
+  refine ⟨policy.filter (fun rule => (u :: roles).contains (rule.headD "")), ?_, ?_⟩
+  · simp only [implicitPermissions, hroles]
+  · rw [enforce_rbac policy links fn evalTab u o a harity]
+    congr 1
+    by_cases hp : policy = []
+    · subst hp
+      have ho : o ≠ "" := by
+        rcases hD24 with h | h
+        · exact absurd rfl h
+        · exact h
+      have : ([("" : String), ""] == [o, a]) = false := by
+        rw [beq_eq_false_iff_ne]
+        intro e
+        simp only [List.cons.injEq] at e
+        exact ho e.1.symm
+      simp [this]
+    · rw [if_neg hp, List.any_filter]
+      congr 1
+      funext rule
+      rw [hlinks, hasLink_eq_contains rm u [] roles hroles hd]
 
 /-- **implicit permissions** (stock RBAC-with-domains model): `Enforce(u, d, o, a)` is allowed iff some
     permission listed by `GetImplicitPermissionsForUser(u, d)` grants it -/
@@ -83,39 +137,124 @@ theorem enforce_iff_listed_domain (policy : List Rule) (rm : RM) (links : String
       (enforce rbacDomModel (fun pt => if pt = "p" then policy else []) links fn evalTab {} none
           [.str u, .str d, .str o, .str a]).map (·.1)
         = some (perms.any (fun perm => perm.tail == [d, o, a])) := by
-  sorry
+  obtain ⟨roles, hroles, _, _⟩ := implicitRoles_spec rm u [d]
+  by_cases hp : policy = []
+  · subst hp
+    refine ⟨[], ?_, ?_⟩
+    · simp [implicitPermissions, hroles]
+    · rw [enforce_rbacDom [] links fn evalTab u d o a harity]
+      congr 1
+      have ho : o ≠ "" := by
+        rcases hD24 with h | h
+        · exact absurd rfl h
+        · exact h
+      have : ([("" : String), "", ""] == [d, o, a]) = false := by
+        rw [beq_eq_false_iff_ne]
+        intro e
+        simp only [List.cons.injEq] at e
+        exact ho e.2.1.symm
+      simp [this]
+  · have hne : policy.isEmpty = false := by cases policy <;> simp_all
+    refine ⟨(policy.filter (fun rule => (rule.getD 1 "") == d && (u :: roles).contains (rule.headD ""))).map
+        (fun rule => rule.set 1 d), ?_, ?_⟩
+    · simp [implicitPermissions, hroles, hne]
+    · rw [enforce_rbacDom policy links fn evalTab u d o a harity, if_neg hp, List.any_map,
+        List.any_filter]
+      congr 1
+      have hrule : ∀ rule ∈ policy,
+          (links "g" [u, rule.headD "", d] && rule.tail == [d, o, a]) =
+            ((rule.getD 1 "" == d && (u :: roles).contains (rule.headD "")) &&
+              ((fun perm : Rule => perm.tail == [d, o, a]) ∘ fun rule => rule.set 1 d) rule) := by
+        intro rule hr
+        rw [hlinks, hasLink_eq_contains rm u [d] roles hroles hd]
+        match rule, harity rule hr with
+        | [s, dm, ob, ac], _ =>
+          rw [Bool.eq_iff_iff]
+          simp only [List.headD_cons, List.tail_cons, List.getD_cons_succ, List.getD_cons_zero,
+            Function.comp_apply, List.set_cons_succ, List.set_cons_zero, Bool.and_eq_true,
+            beq_iff_eq, List.cons.injEq, and_true, true_and]
+          constructor
+          · rintro ⟨h1, h2, h3, h4⟩
+            exact ⟨⟨h2, h1⟩, h3, h4⟩
+          · rintro ⟨⟨h2, h1⟩, h3, h4⟩
+            exact ⟨h1, h2, h3, h4⟩
+      rw [Bool.eq_iff_iff, List.any_eq_true, List.any_eq_true]
+      constructor
+      · rintro ⟨rule, hr, h⟩
+        exact ⟨rule, hr, by rw [← hrule rule hr]; exact h⟩
+      · rintro ⟨rule, hr, h⟩
+        exact ⟨rule, hr, by rw [hrule rule hr]; exact h⟩
 
 /-- every listed permission is a stored rule whose subject is the user or an implicit role -/
 theorem listed_is_stored (policy : List Rule) (rm : RM) (u : String) (perms : List Rule)
     (h : implicitPermissions policy rm none u [] = .ok perms) (perm : Rule) (hp : perm ∈ perms) :
     perm ∈ policy ∧ (perm.headD "" = u ∨ Reach rm.links (rm.dom []) u (perm.headD "")) := by
-  sorry
+  obtain ⟨roles, hroles, _, hmem⟩ := implicitRoles_spec rm u []
+  simp only [implicitPermissions, hroles, Listing.ok.injEq] at h
+  subst h
+  simp only [List.mem_filter, List.contains_eq_mem, List.mem_cons, decide_eq_true_eq] at hp
+  refine ⟨hp.1, ?_⟩
+  rcases hp.2 with h | h
+  · exact .inl h
+  · exact .inr ((hmem _).1 h).2
 
 /-- the candidates of `GetImplicitUsersForPermission`: subjects that are no role name -/
 theorem candidateUsers_exact (ps gf gs : List String) (u : String) :
     u ∈ candidateUsers ps gf gs ↔ (u ∈ ps ∨ u ∈ gf) ∧ u ∉ gs := by
-  sorry
+  simp only [candidateUsers, dedup, List.mem_filter, List.mem_eraseDups, List.mem_append,
+    Bool.not_eq_true', List.contains_eq_mem, decide_eq_false_iff_not]
 
 /-- **implicit users**: `GetImplicitUsersForPermission` lists exactly the non-role subjects for
     which `Enforce` answers true … -/
 theorem implicitUsers_exact (cands : List String) (decide : String → Option Bool) (l : List String)
     (h : implicitUsersForPermission cands decide = .ok l) (u : String) :
     u ∈ l ↔ u ∈ cands ∧ decide u = some true := by
-  sorry
+  unfold implicitUsersForPermission at h
+  cases hm : cands.mapM (fun u => (decide u).map (fun b => (u, b))) with
+  | none => simp [hm] at h
+  | some ys =>
+    simp only [hm, Listing.ok.injEq] at h
+    subst h
+    have hmap := mapM_option_some _ cands ys hm
+    have hmem : (u, true) ∈ ys ↔ u ∈ cands ∧ decide u = some true := by
+      have : (u, true) ∈ ys ↔ some (u, true) ∈ ys.map some := by simp
+      rw [this, ← hmap]
+      simp only [List.mem_map, Option.map_eq_some_iff, Prod.mk.injEq]
+      constructor
+      · rintro ⟨c, hc, b, hb, rfl, rfl⟩
+        exact ⟨hc, hb⟩
+      · rintro ⟨hc, hb⟩
+        exact ⟨u, hc, true, hb, rfl, rfl⟩
+    rw [← hmem]
+    simp only [List.mem_map, List.mem_filter]
+    constructor
+    · rintro ⟨⟨x, b⟩, ⟨hx, hb⟩, rfl⟩
+      simp only at hb
+      subst hb
+      exact hx
+    · intro hx
+      exact ⟨(u, true), ⟨hx, rfl⟩, rfl⟩
 
 /-- … and fails exactly when `Enforce` fails for one of them (never a partial list) -/
 theorem implicitUsers_err (cands : List String) (decide : String → Option Bool) :
     implicitUsersForPermission cands decide = .err ↔ ∃ u ∈ cands, decide u = none := by
-  sorry
+  have key := mapM_option_none_iff (fun u => (decide u).map (fun b => (u, b))) cands
+  simp only [Option.map_eq_none_iff] at key
+  rw [← key]
+  unfold implicitUsersForPermission
+  cases cands.mapM (fun u => (decide u).map (fun b => (u, b))) <;> simp
 
 /-- beyond the depth limit the listing and `g()` part ways (why `DepthOk` is a hypothesis): -/
 theorem depth_limit_needed :
     (∃ l, implicitRoles chain "n0" [] = some l ∧ "n11" ∈ l) ∧ chain.hasLink "n0" "n11" [] = false := by
-  sorry
+  refine ⟨⟨_, rfl, ?_⟩, ?_⟩
+  · decide
+  · decide
 
 /-- the hypotheses are satisfiable on a diamond with a cycle -/
 example : ∃ l, implicitRoles { kind := .plain, links := [("a", "b", ""), ("a", "c", ""), ("b", "d", ""), ("c", "d", ""), ("d", "a", "")] } "a" [] = some l
     ∧ l.length = 3 := by
-  sorry
+  refine ⟨_, rfl, ?_⟩
+  decide
 
 end Casbin.C16
